@@ -2546,7 +2546,12 @@ func (pid *PID) freeChildren(ctx context.Context) error {
 				logger.Debugf("parent %s disowning descendant %s", pid.Name(), child.Name())
 				pid.UnWatch(child)
 				tree.removeDescendant(node.id, child.ID())
-				if child.IsSuspended() || child.IsRunning() {
+				// A child whose own stop is already under way (its PoisonPill turn, a
+				// Shutdown by someone else, a passivation) is neither running nor
+				// suspended. Shutdown serializes on the child's stop lock, so calling
+				// it waits for that stop to finish: the parent's PostStop must not run
+				// before the child's has completed.
+				if child.IsSuspended() || child.IsRunning() || child.isStateSet(stoppingState) || child.isStateSet(passivatingState) {
 					if err := child.Shutdown(ctx); err != nil {
 						// only return error when the actor is not dead
 						// because if the actor is dead it means that
